@@ -149,6 +149,33 @@ def gen_random(rng, cap, nops, nreaders_max, frame_mode=False):
     return ops
 
 
+def gen_frames(rng, cap, nops, nreaders_max):
+    """C05: every write is a frame (multiple of 8); readers consume up to frame boundaries.
+    mode A: one frame size F, readers consume j*F or everything; mode B: mixed sizes, readers consume 0 or everything."""
+    ops, nr, pending, mapped = [], 0, False, []
+    uniform = rng.random() < 0.6
+    sizes = [8 * k for k in range(1, max(2, cap // 8)) if 8 * k < cap] or [8]
+    F = rng.choice(sizes[: max(1, len(sizes) // 2)])
+    join_at = sorted(rng.randrange(0, max(1, nops // 2)) for _ in range(nreaders_max))
+    for t in range(nops):
+        if nr < nreaders_max and t >= join_at[nr]:
+            ops.append("join"); nr += 1; mapped.append(True); continue
+        r = rng.random()
+        if r < 0.45:
+            if pending:
+                ops.append("wcommit" if rng.random() < 0.9 else "wabort"); pending = False
+            else:
+                ops.append("wmap %d" % (F if uniform else rng.choice(sizes))); pending = True
+        elif nr:
+            i = rng.randrange(nr)
+            if mapped[i]:
+                k = rng.choice([0, F, 2 * F, cap, cap]) if uniform else rng.choice([0, cap, cap])
+                ops.append("runmap %d %d" % (i, k)); mapped[i] = False
+            else:
+                ops.append("rmap %d" % i); mapped[i] = True
+    return ops
+
+
 # ---------------------------------------------------------------- running
 LABEL = re.compile(r" ~(\S+)$")
 
@@ -162,7 +189,7 @@ def run_batch(ctx, exe, drv, cases, stats, oracle_filter=None, timeout=600):
         starts.append(len(text))
         text.append("new %d" % cap)
         text.extend(ops)
-    script = "\n".join(text) + "\n"
+    script = ("framemode 1\n" if stats.get("frame_mode") else "") + "\n".join(text) + "\n"
     rc_i, impl, err_i = C.run_lines(exe, script, timeout=timeout)
     rc_m, model, err_m = C.run_lines(drv, script, timeout=timeout)
     problems = []
@@ -225,8 +252,11 @@ def run_batch(ctx, exe, drv, cases, stats, oracle_filter=None, timeout=600):
     return problems
 
 
+FRAME_MODE_SHRINK = [False]
+
+
 def single_fails(exe, drv, cap, ops, kind, needle=None):
-    stats = {"branches": {}, "distinct": set(), "evaluations": 0, "ops": 0, "validated": 0}
+    stats = {"branches": {}, "distinct": set(), "evaluations": 0, "ops": 0, "validated": 0, "frame_mode": FRAME_MODE_SHRINK[0]}
     pr = run_batch(None, exe, drv, [(cap, ops)], stats, timeout=60)
     for _, k, det in pr:
         if k == kind:
@@ -242,21 +272,23 @@ def oracle_kind(msg):
 # which oracle messages belong to which property
 C01_ORACLES = {"empty-but-not-drained", "read-bytes-not-next-in-stream", "read-region-beyond-committed",
                "join-not-at-write-boundary", "read-region-outside-buffer", "read-region-negative"}
+C05_ORACLES = {"frame-write-misaligned", "frame-region-misaligned", "frame-region-not-whole-frames"}
 C02_ORACLES = {"write-region-outside-buffer", "write-region-overlaps-mapped-reader", "write-region-overlaps-unconsumed",
                "mapped-region-changed", "read-region-outside-buffer", "read-region-beyond-committed", "lock-depth"}
 
 
 def explore(ctx, oracles, frame_mode=False):
     exe, drv = build(ctx)
-    stats = {"branches": {}, "distinct": set(), "evaluations": 0, "ops": 0, "validated": 0}
+    stats = {"branches": {}, "distinct": set(), "evaluations": 0, "ops": 0, "validated": 0, "frame_mode": frame_mode}
     if not exe:
         return stats
     rng = ctx.rng
     thorough = ctx.tier == "thorough"
+    FRAME_MODE_SHRINK[0] = frame_mode
     batches = []
     # 0. corpus first
     corpus = []
-    for f in C.corpus_files("chan"):
+    for f in C.corpus_files("chan-frames" if frame_mode else "chan"):
         lines = [l.strip() for l in open(f) if l.strip() and not l.startswith("#")]
         if lines and lines[0].startswith("new "):
             corpus.append((int(lines[0].split()[1]), lines[1:]))
@@ -265,10 +297,10 @@ def explore(ctx, oracles, frame_mode=False):
     # 1. exhaustive small space
     depth = 8 if thorough else 6
     ex = []
-    for cap in (2, 3, 4, 5):
+    for cap in (() if frame_mode else (2, 3, 4, 5)):
         for ops in gen_exhaustive(cap, depth, 2 if cap > 2 else 1, with_accept=False):
             ex.append((cap, ops))
-    for cap in (3, 4):
+    for cap in (() if frame_mode else (3, 4)):
         for ops in gen_exhaustive(cap, depth - 1, 1, with_accept=True):
             ex.append((cap, ops))
     stats["exhaustive_cases"] = len(ex)
@@ -277,11 +309,14 @@ def explore(ctx, oracles, frame_mode=False):
     # 2. random long histories
     nrand = 6000 if thorough else 400
     rnd = []
-    caps = [2, 3, 5, 8, 16, 33, 64, 1024] if not frame_mode else [24, 32, 64, 72, 136, 1024]
+    caps = [2, 3, 5, 8, 16, 33, 64, 1024] if not frame_mode else [24, 32, 64, 72, 136, 336, 1024]
     for k in range(nrand):
         cap = caps[k % len(caps)]
         nr = 1 + (k // len(caps)) % 8
-        rnd.append((cap, gen_random(rng, cap, rng.choice([300, 600, 1500] if thorough else [300, 400]), nr, frame_mode)))
+        if frame_mode:
+            rnd.append((cap, gen_frames(rng, cap, rng.choice([300, 600, 1500] if thorough else [300, 400]), nr)))
+        else:
+            rnd.append((cap, gen_random(rng, cap, rng.choice([300, 600, 1500] if thorough else [300, 400]), nr, frame_mode)))
     for i in range(0, len(rnd), 200):
         batches.append(rnd[i:i + 200])
     samples = []
